@@ -84,6 +84,15 @@ async fn verif_replay() {
                 obs(json!({"op": name, "ok": s.is_ok()}));
                 if let Ok(s) = s { subs.insert(n.to_string(), s); }
             }
+            "delete_topic" => {
+                // delete the topic and drop every strong handle the script holds (subscriptions keep a Weak only)
+                let n = op["name"].as_str().unwrap();
+                let t = topics.remove(n).unwrap();
+                let r = t.delete().await;
+                drop(t);
+                for _ in 0..8 { tokio::task::yield_now().await; }
+                obs(json!({"op": name, "ok": r.is_ok()}));
+            }
             "publish" => {
                 let t = topics.get(op["topic"].as_str().unwrap()).unwrap();
                 let n = op["count"].as_u64().unwrap();
